@@ -60,6 +60,7 @@ type world struct {
 	fetch           func(d, f string) (*verifier.PublicKey, error)
 	semCalls, seed  int
 	semAll          bool
+	kidSuffix       string // appended to the kid of signed tokens (a kid with a second '#': the resolver gets the part between)
 }
 
 const (
@@ -593,7 +594,7 @@ func (w *world) sign(ref string, jwkForm bool, hdrExtra [][2]string, claims stri
 		proc = algProc[alg]
 	}
 
-	members := [][2]string{{"alg", q(alg)}, {"kid", q(d + "#" + frag)}}
+	members := [][2]string{{"alg", q(alg)}, {"kid", q(d + "#" + frag + w.kidSuffix)}}
 	members = append(members, hdrExtra...)
 
 	if rawPayload {
@@ -1023,6 +1024,15 @@ func main() {
 				w.semantic(r, b, sc, tr)
 			}
 		}
+	}
+
+	// honestly signed tokens whose kid has a second fragment separator: the key is the one named between the two
+	for ki, k := range w.party {
+		r := rng.Fork(uint64(3000 + ki))
+		w.kidSuffix = []string{"#x", "#" + k.name + "-r", "#"}[ki%3]
+		b := w.sign(didA+"#"+k.name, ki%2 == 0, nil, claimsJSON(r, 1), r.Intn(6), false, false)
+		w.kidSuffix = ""
+		w.run("honest", b.mk(entries[ki%4], "basic", "honest-kid-two-fragments"), true, tr)
 	}
 
 	// detached and b64=false tokens
